@@ -1236,7 +1236,13 @@ PROPS["C08"] = dict(
          "2 s after it and later; model event EvStoreAt. promote: the real cacheCtl with memory + redis backend (in-process "
          "RESP2 fake): own stores whose memory copy is dropped late in the lifetime and answers another instance fetched up "
          "to a year ago, read back through cacheCtl.Get (redis hit, promotion), probed after fetch + lifetime + 2 s; model "
-         "Cache/CacheTier.v over 20 ticker phases x 40 Unix-second phases. distinct = distinct case line",
+         "Cache/CacheTier.v over 20 ticker phases x 40 Unix-second phases. rediscmd: one Store per answer class (NOERROR with / "
+         "without records, every error rcode, with / without records; redis-only and memory + redis; maximum_ttl default / "
+         "2 s / 40 s): the SET command as the fake redis server received it (NX flag, PX value) against the model's "
+         "ct_store_cmd, then lookups after the server's (virtual) clock jumped past lifetime + 2 s and one hour more. "
+         "refresherr: a real router whose cache (memory-only / redis-only / both) holds a positive answer in its refresh "
+         "window while the upstream answers every refresh with an error rcode; three client queries must all be served the "
+         "positive answer (oracle only). distinct = distinct case line",
     assumptions=["otter clock model (see trusted base); cachehist ops are scheduled >= 200 ms away from whole-second "
                  "distances to the stores they depend on, and a case whose ops ran > 150 ms late is re-run once, then "
                  "reported as a harness note, never as an alarm; a real-clock case that passes the property oracle but "
